@@ -321,3 +321,85 @@ pub fn job_literal(job: &Sexp) -> String {
     }
     format!("{out} (rs {})", rs.join(" "))
 }
+
+/// `litapi` jobs (C09 scenarios around consts): a whole program text, optional external unsigned
+/// constants `(ext "PARTY" "NAME" <uty> <n>)`, and argument texts `(arg <idx> "text")`. For each argument:
+/// parse_arg -> as_bits -> (if it is the only `(arg ..)`) nothing more; all under catch_unwind.
+/// Result per argument: `(err)`, `crash`, or `(ok "<printed literal>" <nbits>)`; then, when every
+/// parameter got exactly one accepted argument in order, `(out "<printed result>")` of the circuit.
+pub fn job_litapi(job: &Sexp) -> String {
+    let src = job.field("src").args()[0].text();
+    let mut consts: std::collections::HashMap<String, std::collections::HashMap<String, Literal>> =
+        std::collections::HashMap::new();
+    let mut has_ext = false;
+    for f in job.list().iter().skip(2) {
+        if f.head() == "ext" {
+            has_ext = true;
+            let a = f.args();
+            consts
+                .entry(a[0].text())
+                .or_default()
+                .insert(a[1].text(), Literal::NumUnsigned(a[3].text().parse().unwrap(), uty(a[2].atom())));
+        }
+    }
+    let compiled = catch_unwind(AssertUnwindSafe(|| {
+        if has_ext {
+            garble_lang::compile_with_constants(&src, consts)
+        } else {
+            compile(&src)
+        }
+    }));
+    let prg = match compiled {
+        Err(_) => return "(compile crash)".into(),
+        Ok(Err(_)) => return "(compile error)".into(),
+        Ok(Ok(p)) => p,
+    };
+    let mut out = vec![];
+    let mut inputs: Vec<Vec<bool>> = vec![];
+    let mut complete = true;
+    let mut next = 0usize;
+    for f in job.list().iter().skip(2) {
+        if f.head() != "arg" {
+            continue;
+        }
+        let idx = f.args()[0].usize();
+        let text = f.args()[1].text();
+        let r = catch_unwind(AssertUnwindSafe(|| {
+            prg.parse_arg(idx, &text).map(|a| {
+                let shown = a.as_literal().to_string();
+                (shown, a.as_bits())
+            })
+        }));
+        match r {
+            Err(_) => {
+                complete = false;
+                out.push("crash".to_string())
+            }
+            Ok(Err(_)) => {
+                complete = false;
+                out.push("(err)".to_string())
+            }
+            Ok(Ok((shown, bits))) => {
+                out.push(format!("(ok {} {})", quote(shown.as_bytes()), bits.len()));
+                if idx == next {
+                    inputs.push(bits);
+                    next += 1;
+                } else {
+                    complete = false;
+                }
+            }
+        }
+    }
+    if complete && inputs.len() == prg.main.params.len() {
+        let r = catch_unwind(AssertUnwindSafe(|| {
+            let o = prg.circuit.eval(&inputs);
+            prg.parse_output(&o).map(|l| l.to_string())
+        }));
+        out.push(match r {
+            Err(_) => "(out crash)".to_string(),
+            Ok(Err(_)) => "(out err)".to_string(),
+            Ok(Ok(s)) => format!("(out {})", quote(s.as_bytes())),
+        });
+    }
+    out.join(" ")
+}
